@@ -181,6 +181,10 @@ func HarnessC18XRDRolesReconcile() {
 
 	if taken >= 0 {
 		zz.Assert("foreign-role-left-exactly-as-it-was", reflect.DeepEqual(before, s.Doc("rbac.authorization.k8s.io", "ClusterRole", "", want[taken].Name)))
+		if !deleting {
+			// ... and the conflict is not swallowed
+			zz.Assert("conflict-with-foreign-owner-surfaces", err != nil)
+		}
 	}
 	if deleting {
 		zz.Cover("deleting")
